@@ -24,7 +24,7 @@ import (
 func init() {
 	Registry["C11"] = &Check{
 		Scenarios: c11Scenarios,
-		Rule: "an absent Origin-Host / Origin-Realm takes three forms in rotation (not there, there but empty, only inside a Proxy-Info group); the server's own Settings.VendorID alternates between 99 (no application's vendor) and 10415 (the vendor of the 3GPP applications a CER may share); every CER over Origin-Host {absent, present} x Origin-Realm {absent, present} x Inband-Security-Id {absent, 0, 1, 2^31-1, the list [0, 1], code 299 under a foreign vendor id (not the IETF AVP)} x every sequence (so every order) of <=2 (thorough 3) application AVPs over 20 atoms (18 + Auth / Acct of an application id that a dictionary loaded into dict.Default declares under both types): Acct-Application-Id {3 supported, 4 wrong type, 999 unsupported, relay}, Auth-Application-Id {4, 3 wrong type, 999, relay}, Vendor-Specific-Application-Id groups {[Vendor-Id, Auth 4], [Auth 999, Vendor-Id], [Vendor-Id, Auth 999], [Vendor-Id, Acct 3], [Vendor-Id], [Auth 16777251], [Acct 999], [Auth 4, Auth 999], [Auth 999, Auth 4], []}; settings with configured HostIPAddresses, with the deprecated single HostIPAddress only, and without configured addresses; local endpoint over {10.1.2.3, loopback, an IPv6 address in brackets, link-local IPv4 and IPv6 addresses, a multihomed SCTP endpoint 127.0.0.1/10.1.2.3/[2001:db8::7]}; hop-by-hop / end-to-end ids rotate over {0,1,2^31,2^32-1}. Without configured addresses the local endpoint rotates over the list from one connection to the next. Each CER is sent end-to-end, on a connection of its own, to ONE state machine per scenario (so a verdict that depends on earlier CERs is caught; the visiting order alternates rich and poor CERs) over the in-memory transport, followed by an RAR whose gated handler reads the connection metadata. One deterministic schedule per CER (the quantifier is over inputs).",
+		Rule: "every fifth refused CER meets a transient transport error on the write of its failure CEA (the connection must be closed all the same); an absent Origin-Host / Origin-Realm takes three forms in rotation (not there, there but empty, only inside a Proxy-Info group); the server's own Settings.VendorID alternates between 99 (no application's vendor) and 10415 (the vendor of the 3GPP applications a CER may share); every CER over Origin-Host {absent, present} x Origin-Realm {absent, present} x Inband-Security-Id {absent, 0, 1, 2^31-1, the list [0, 1], code 299 under a foreign vendor id (not the IETF AVP)} x every sequence (so every order) of <=2 (thorough 3) application AVPs over 20 atoms (18 + Auth / Acct of an application id that a dictionary loaded into dict.Default declares under both types): Acct-Application-Id {3 supported, 4 wrong type, 999 unsupported, relay}, Auth-Application-Id {4, 3 wrong type, 999, relay}, Vendor-Specific-Application-Id groups {[Vendor-Id, Auth 4], [Auth 999, Vendor-Id], [Vendor-Id, Auth 999], [Vendor-Id, Acct 3], [Vendor-Id], [Auth 16777251], [Acct 999], [Auth 4, Auth 999], [Auth 999, Auth 4], []}; settings with configured HostIPAddresses, with the deprecated single HostIPAddress only, and without configured addresses; local endpoint over {10.1.2.3, loopback, an IPv6 address in brackets, link-local IPv4 and IPv6 addresses, a multihomed SCTP endpoint 127.0.0.1/10.1.2.3/[2001:db8::7]}; hop-by-hop / end-to-end ids rotate over {0,1,2^31,2^32-1}. Without configured addresses the local endpoint rotates over the list from one connection to the next. Each CER is sent end-to-end, on a connection of its own, to ONE state machine per scenario (so a verdict that depends on earlier CERs is caught; the visiting order alternates rich and poor CERs) over the in-memory transport, followed by an RAR whose gated handler reads the connection metadata. One deterministic schedule per CER (the quantifier is over inputs).",
 		Assume: []string{"reference acceptance predicate written from the statement, with application support read from the independent refdict model of the embedded XML", "single default schedule per input"},
 		QuickBudget: 120, ThoroughBudget: 1800,
 	}
@@ -282,9 +282,15 @@ func c11Run(r *SeqResult, host, realm bool, inband int, cfgIP bool, loop int, ma
 		var cea *PMsg
 		var meta *smpeer.Metadata
 		var metaSeen, closed bool
+		// every fifth refused CER: the transport reports a transient error for the one write that would
+		// carry the failure CEA (nothing is accepted). The refusal stands: the connection is closed.
+		faultCEA := !accept && step%5 == 4
 		s := vs.Run(nil, false, 5*time.Second, false, func() {
 			conn := vnet.NewConn("S")
 			conn.Pieces = 1
+			if faultCEA {
+				conn.WScript = []vnet.WOutcome{{N: -1, Err: vnet.TempErr{}}}
+			}
 			conn.Local = vnet.Addr{S: c11Locals[loop].addr}
 			curMeta, curSeen = &meta, &metaSeen
 			if _, err := diam.NewConn(conn, "peer", mach, dict.Default); err != nil {
@@ -292,6 +298,11 @@ func c11Run(r *SeqResult, host, realm bool, inband int, cfgIP bool, loop int, ma
 			}
 			p := &Peer{C: conn}
 			conn.Deliver(cer)
+			if faultCEA {
+				vs.BlockObj("wait-closed-or-quiet", conn, func() bool { return conn.Closed })
+				closed = conn.Closed
+				return
+			}
 			cea = p.Next()
 			if cea != nil && !conn.Closed {
 				conn.Deliver(refcodec.EncodeMessage(refcodec.Header{Version: 1, Flags: 0x80, Code: 258, HbH: 1, E2E: 1}, []refcodec.Node{ident(264, "cli.example"), ident(296, "example")}))
@@ -310,7 +321,13 @@ func c11Run(r *SeqResult, host, realm bool, inband int, cfgIP bool, loop int, ma
 			continue
 		}
 		v := ""
-		if cea == nil {
+		if faultCEA {
+			if !closed {
+				v = "the CER was refused (" + c11Why(host, realm, inband, shared) + "), the write of the failure CEA met a transient transport error, and the connection was left open"
+			} else if metaSeen {
+				v = "gated handler ran after a refused CER"
+			}
+		} else if cea == nil {
 			v = "no CEA was written"
 		} else {
 			rc := uint32(0)
